@@ -562,7 +562,7 @@ def coverage(ctx, cases, blocks, nacc, fam_sizes, info):
                     split += 1
                     k = b.index(r)
                     if b[k + 1].get("cls") == "ok" and len(obs["fragment_applied"]) < 3 and c["fam"] != "whole":
-                        obs["fragment_applied"].append(dict(sent=[x for x in cmds][:2], read=sig_text(t)))
+                        obs["fragment_applied"].append(dict(sent=[sig_text(x) for x in cmds][:2], read=sig_text(t)))
                 if "" in t.split(" ")[1:]:
                     empty_tok += 1
             for s in ws:
